@@ -469,6 +469,8 @@ package parsers
 //@   requires pOK(c) && c.currentTokenIndex == 0 && len(c.resultTokens) == 0 && len(c.initialTokens) == 0 &&
 //@       arr(c.resultTokens) != arr(c.initialTokens)
 //@   ensures[C03] pOK(c)
+// "every other non-empty token sequence is rejected": success means the classified tokens, all of them, are one sentence of the grammar
+//@   ensures[C02] result == nil && len(c.originalTokens) > 0 ==> E0(toks(c), tys(), 0) == len(c.initialTokens) && c.currentTokenIndex == len(c.initialTokens)
 //@   assigns c.currentTokenIndex, c.initialTokens, c.initialTokens[*], c.resultTokens, c.resultTokens[*], c.variableNames, c.variableNames[*]
 //@   nopanic
 //@ func (c *ExpressionParser) tokenizeExpression
@@ -485,12 +487,14 @@ package parsers
 //@   globals
 //@   requires c != nil && c.tokenizer != nil
 //@   ensures[C03] pOK(c)
+//@   ensures[C02] result == nil && len(c.originalTokens) > 0 ==> E0(toks(c), tys(), 0) == len(c.initialTokens) && c.currentTokenIndex == len(c.initialTokens)
 //@   nopanic
 //@ func (c *ExpressionParser) SetExpression
 //@   tags C03
 //@   globals
 //@   requires c != nil && c.tokenizer != nil
 //@   ensures[C03] pOK(c)
+//@   ensures[C02] result == nil && len(c.originalTokens) > 0 ==> E0(toks(c), tys(), 0) == len(c.initialTokens) && c.currentTokenIndex == len(c.initialTokens)
 //@   nopanic
 //@ func NewExpressionParser
 //@   ensures[C03] fresh(result) && result.tokenizer != nil && pOK(result)
